@@ -4,6 +4,7 @@ CONSTANTS
   Mode = "tokens"
   MaxLen = 0
   MaxTok = 2
+  PumpK = 0
   Advance = TRUE
   Shard = 0
   NShards = 1
